@@ -112,41 +112,206 @@ Lemma update_avail_spec : forall c s, update_avail c s = spec_update_avail c s.
 Proof. unfold update_avail, spec_update_avail; intros. rewrite avail_all_spec. reflexivity. Qed.
 
 (* ------------------------------------------------------------------ the diagnostic list *)
-Fixpoint diag_clean (l : list N) : bool :=
-  match l with
-  | [] => true
-  | k :: v :: r => negb (is_diag_key v) && diag_clean r
-  | _ => false
+Lemma diag_apply_spec : forall b k v, diag_apply b k v = spec_diag1 b (k, v).
+Proof.
+  intros. unfold diag_apply, spec_diag1.
+  destruct k as [|p]; [simpl; rewrite power_of_code_spec; reflexivity|].
+  destruct p as [p|p|]; simpl.
+  - destruct p; reflexivity.
+  - destruct p; try reflexivity.
+  - assert ((v <? 251) = (v <=? 250)). { destruct (N.ltb_spec v 251), (N.leb_spec v 250); auto; lia. }
+    rewrite H. reflexivity.
+Qed.
+
+Lemma diag_loop_spec : forall l b, diag_loop l b = spec_diag b l.
+Proof.
+  fix IH 1. intros l b. destruct l as [|k [|v r]]; try reflexivity.
+  unfold spec_diag. cbn [diag_pairs fold_left diag_loop]. rewrite diag_apply_spec. apply (IH r).
+Qed.
+
+(* ------------------------------------------------------------------ the step lemma: model = specification *)
+Definition byte_list (l : list N) : Prop := Forall (fun b => b < 256) l.
+Definition event_ok (e : event) : Prop :=
+  match e with
+  | EMsg _ ty data => byte_list data
+  | EUserDrive p => dr_speed p < 256
+  | _ => True
   end.
 
-Lemma diag_apply_spec : forall b k v, is_diag_key k = true -> diag_apply b k v = spec_diag1 b (k, v).
+Lemma bm_occ_spec : forall c s a n o, bm_occ c s a n o = spec_bm_occ c s a n o.
+Proof. unfold bm_occ, spec_bm_occ; intros. destruct (seg_ref c s a n) as [[g sg]|]; auto. apply update_avail_spec. Qed.
+
+Lemma bm_address_spec : forall c s a n l, byte_list l -> bm_address c s a n l = spec_bm_address c s a n l.
 Proof.
-  unfold is_diag_key; intros. apply N.ltb_lt in H.
-  assert (K : k = 0 \/ k = 1 \/ k = 2) by lia. destruct K as [ -> | [ -> | -> ] ]; unfold diag_apply, spec_diag1; simpl.
-  - rewrite power_of_code_spec. reflexivity.
-  - assert ((v <? 251) = (v <=? 250)). { destruct (N.ltb_spec v 251), (N.leb_spec v 250); auto; lia. }
-    rewrite H0. reflexivity.
-  - reflexivity.
+  unfold bm_address, spec_bm_address; intros. destruct (seg_ref c s a n) as [[g sg]|]; auto.
+  rewrite addr_list_spec by auto. apply update_avail_spec.
 Qed.
 
-Lemma spec_diag1_other : forall b k v, is_diag_key k = false -> spec_diag1 b (k, v) = b.
+Lemma bm_current_spec : forall c s a n x, bm_current c s a n x = spec_bm_current c s a n x.
+Proof. unfold bm_current, spec_bm_current; intros. destruct (seg_ref c s a n) as [[g sg]|]; auto. rewrite power_of_code_spec. reflexivity. Qed.
+
+Lemma boost_state_spec : forall c s a x, x < 256 -> boost_state c s a x = spec_boost_state c s a x.
+Proof. unfold boost_state, spec_boost_state; intros. rewrite simple_of_spec by auto. reflexivity. Qed.
+
+Lemma upd_nth_const : forall A (l : list A) i x (f : A -> A), nth_error l i = Some x -> upd_nth i (fun _ => f x) l = upd_nth i f l.
+Proof. induction l; destruct i; simpl; intros; try discriminate; auto. inversion H; subst; auto. f_equal; eauto. Qed.
+
+Lemma st_eta_boost : forall s, set_boost s (s_boost s) = s.
+Proof. destruct s; reflexivity. Qed.
+
+Lemma boost_diagnostic_spec : forall c s a l, boost_diagnostic c s a l = spec_boost_diagnostic c s a l.
 Proof.
-  unfold is_diag_key, spec_diag1; intros. apply N.ltb_ge in H.
-  destruct k as [|p]; [lia|]. destruct p as [p|p|]; try reflexivity; [|lia]. destruct p; try reflexivity; lia.
+  unfold boost_diagnostic, spec_boost_diagnostic; intros. destruct (board_by_addr c s a) as [[i bc]|]; auto.
+  destruct (is_booster bc); auto. f_equal. clear. revert i. induction (s_boost s); destruct i; simpl; auto.
+  - rewrite diag_loop_spec. reflexivity.
+  - f_equal. auto.
 Qed.
 
-Lemma diag_loop_spec : forall l b, diag_clean l = true -> diag_loop l b = inr (spec_diag b l).
+Lemma cs_drive_spec : forall c s p, dr_speed p < 256 -> cs_drive c s p = spec_cs_drive c s p.
+Proof. unfold cs_drive, spec_cs_drive; intros. rewrite speed_spec by auto. reflexivity. Qed.
+
+Lemma byte_list_inv : forall x l, byte_list (x :: l) -> x < 256 /\ byte_list l.
+Proof. intros. inversion H; auto. Qed.
+
+Lemma handle_eq_spec : forall c s a ty data, byte_list data -> handle c s a ty data = spec_handle c s a ty data.
 Proof.
-  fix IH 1. intros l b H. destruct l as [|k [|v r]]; try discriminate; try reflexivity.
-  cbn [diag_clean] in H. apply andb_true_iff in H. destruct H as [Hv Hr]. apply negb_true_iff in Hv.
-  unfold spec_diag. cbn [diag_pairs fold_left]. cbn [diag_loop]. destruct (is_diag_key k) eqn:Hk.
-  - rewrite Hv. rewrite diag_apply_spec by auto. apply (IH r _ Hr).
-  - rewrite Hv. rewrite spec_diag1_other by auto. apply (IH r _ Hr).
+  intros c s a ty data HB. unfold spec_handle.
+  destruct (ty =? MSG_BM_OCC) eqn:E1.
+  { apply N.eqb_eq in E1; subst. destruct data; [reflexivity|]. change (Ok (bm_occ c s a n true) = Ok (spec_bm_occ c s a n true)). rewrite bm_occ_spec. reflexivity. }
+  destruct (ty =? MSG_BM_FREE) eqn:E2.
+  { apply N.eqb_eq in E2; subst. destruct data; [reflexivity|]. change (Ok (bm_occ c s a n false) = Ok (spec_bm_occ c s a n false)). rewrite bm_occ_spec. reflexivity. }
+  destruct (ty =? MSG_BM_ADDRESS) eqn:E3.
+  { apply N.eqb_eq in E3; subst. destruct data; [reflexivity|]. change (Ok (bm_address c s a n data) = Ok (spec_bm_address c s a n data)).
+    apply byte_list_inv in HB. rewrite bm_address_spec by tauto. reflexivity. }
+  destruct (ty =? MSG_BM_CURRENT) eqn:E4.
+  { apply N.eqb_eq in E4; subst. destruct data as [|n [|v r]]; try reflexivity.
+    change (Ok (bm_current c s a n v) = Ok (spec_bm_current c s a n v)). rewrite bm_current_spec. reflexivity. }
+  destruct (ty =? MSG_BOOST_STAT) eqn:E5.
+  { apply N.eqb_eq in E5; subst. destruct data as [|x r]; try reflexivity.
+    change (Ok (boost_state c s a x) = Ok (spec_boost_state c s a x)). apply byte_list_inv in HB. rewrite boost_state_spec by tauto. reflexivity. }
+  destruct (ty =? MSG_BOOST_DIAGNOSTIC) eqn:E6.
+  { apply N.eqb_eq in E6; subst. change (Ok (boost_diagnostic c s a data) = Ok (spec_boost_diagnostic c s a data)).
+    rewrite boost_diagnostic_spec. reflexivity. }
+  destruct (ty =? MSG_CS_DRIVE_MANUAL) eqn:E7; [|reflexivity].
+  apply N.eqb_eq in E7; subst. destruct data as [|l [|h [|fm [|ac [|sp [|f1 [|f2 [|f3 [|f4 r]]]]]]]]]; try reflexivity.
+  match goal with |- _ = Ok (spec_cs_drive c s ?p) => change (Ok (cs_drive c s p) = Ok (spec_cs_drive c s p)) end.
+  rewrite cs_drive_spec; [reflexivity|]. simpl.
+  repeat (apply byte_list_inv in HB; destruct HB as [? HB]). auto.
 Qed.
 
-(* the byte loop and the pair list disagree as soon as a value byte is itself a key code *)
-Lemma diag_refuted : exists l b b', diag_loop l b = inr b' /\ Nat.even (length l) = true /\ b' <> spec_diag b l.
+Lemma apply_eq_spec : forall c s e, event_ok e -> apply c s e = spec_apply c s e.
 Proof.
-  exists [0; 1; 2; 40], boost0. eexists. split; [vm_compute; reflexivity|]. split; [reflexivity|].
-  vm_compute. intros H. discriminate.
+  destruct e; simpl; intros; auto.
+  - apply handle_eq_spec; auto.
+  - rewrite cs_drive_spec; auto.
 Qed.
+
+Lemma run_from_eq_spec : forall c h s, Forall event_ok h -> run_from c s h = spec_run_from c s h.
+Proof.
+  induction h; simpl; intros; auto. inversion H; subst. rewrite apply_eq_spec by auto.
+  destruct (spec_apply c s a); auto.
+Qed.
+
+Lemma run_eq_spec : forall c h, Forall event_ok h -> run c h = spec_run c h.
+Proof. intros. apply run_from_eq_spec; auto. Qed.
+
+(* ------------------------------------------------------------------ unknown node / port / number / address: no effect *)
+Lemma seg_ref_no_board : forall c s a n, board_by_addr c s a = None -> seg_ref c s a n = None.
+Proof. unfold seg_ref; intros. rewrite H. reflexivity. Qed.
+
+Lemma multiple_fold_no_board : forall c a num data l s, board_by_addr c s a = None ->
+  fold_left (multiple_step c a num data) l s = s.
+Proof.
+  induction l; simpl; intros; auto. unfold multiple_step at 2. rewrite seg_ref_no_board by auto. auto.
+Qed.
+
+Lemma st_eta_dpoints : forall s, set_dpoints s (s_dpoints s) = s. Proof. destruct s; reflexivity. Qed.
+Lemma st_eta_dsignals : forall s, set_dsignals s (s_dsignals s) = s. Proof. destruct s; reflexivity. Qed.
+
+Lemma upd_dacc_missing : forall s pt i f, dacc_exists s pt i = false -> upd_dacc s pt i f = s.
+Proof.
+  unfold dacc_exists, upd_dacc; intros. destruct pt.
+  - destruct (nth_error (s_dpoints s) i) eqn:E; [discriminate|]. rewrite upd_nth_out by auto. apply st_eta_dpoints.
+  - destruct (nth_error (s_dsignals s) i) eqn:E; [discriminate|]. rewrite upd_nth_out by auto. apply st_eta_dsignals.
+Qed.
+
+Ltac ok_inv H := match type of H with Ok _ = Ok _ => inversion H; subst; clear H end.
+
+Lemma unknown_noop : forall c s a ty data s', Inv c s ->
+  target_of c s a ty data = None -> handle c s a ty data = Ok s' -> s' = s.
+Proof.
+  intros c s a ty data s' HI HT H. unfold target_of in HT. unfold handle in H.
+  (* NODE_NEW *)
+  destruct (ty =? MSG_NODE_NEW).
+  { destruct data as [|x0 [|x1 [|u1 [|u2 [|u3 [|u4 [|u5 [|u6 [|u7 r]]]]]]]]]; try discriminate.
+    ok_inv H. unfold node_new. destruct (board_by_uid c _); [discriminate | reflexivity]. }
+  destruct (ty =? MSG_NODE_LOST).
+  { destruct data as [|x0 [|x1 [|u1 [|u2 [|u3 [|u4 [|u5 [|u6 [|u7 r]]]]]]]]]; try discriminate.
+    ok_inv H. unfold node_lost. destruct (board_by_uid c _); [discriminate | reflexivity]. }
+  destruct (ty =? MSG_CS_STATE).
+  { destruct data; [discriminate|]. unfold cs_state in H. destruct (board_by_addr c s a) as [[i bc]|]; [|ok_inv H; auto].
+    destruct (is_output bc); [discriminate | ok_inv H; auto]. }
+  destruct (ty =? MSG_CS_DRIVE_ACK).
+  { destruct data as [|l [|h [|k r]]]; try discriminate. ok_inv H. unfold cs_drive_ack.
+    destruct (train_ref c s l h) as [[[i tc] ts]|]; [discriminate | reflexivity]. }
+  destruct (ty =? MSG_CS_ACCESSORY_ACK).
+  { destruct data as [|l [|h [|k r]]]; try discriminate. ok_inv H. unfold cs_accessory_ack.
+    destruct (dacc_ref c s a l h) as [[pt m]|]; [|reflexivity].
+    destruct (dacc_exists s pt (dm_idx m)) eqn:E; [discriminate|]. apply upd_dacc_missing; auto. }
+  destruct (ty =? MSG_CS_DRIVE_MANUAL).
+  { destruct data as [|l [|h [|fm [|ac [|sp [|f1 [|f2 [|f3 [|f4 r]]]]]]]]]; try discriminate. ok_inv H. unfold cs_drive. simpl.
+    destruct (train_ref c s l h) as [[[i tc] ts]|]; [discriminate | reflexivity]. }
+  destruct (ty =? MSG_CS_ACCESSORY_MANUAL).
+  { destruct data as [|l [|h [|k r]]]; try discriminate. ok_inv H. unfold cs_accessory_manual.
+    destruct (dacc_ref c s a l h) as [[pt m]|]; [|reflexivity].
+    destruct (dacc_exists s pt (dm_idx m)) eqn:E; [discriminate|]. apply upd_dacc_missing; auto. }
+  destruct (ty =? MSG_LC_STAT).
+  { destruct data as [|p0 [|p1 [|v r]]]; try discriminate. ok_inv H. unfold lc_stat. destruct (per_ref c s a p0 p1); [discriminate | reflexivity]. }
+  destruct (ty =? MSG_LC_WAIT).
+  { destruct data as [|p0 [|p1 [|v r]]]; try discriminate. ok_inv H. unfold lc_wait. destruct (per_ref c s a p0 p1); [discriminate | reflexivity]. }
+  destruct (ty =? MSG_BM_OCC).
+  { destruct data as [|n r]; try discriminate. ok_inv H. unfold bm_occ. destruct (seg_ref c s a n) as [[g sg]|]; [discriminate | reflexivity]. }
+  destruct (ty =? MSG_BM_FREE).
+  { destruct data as [|n r]; try discriminate. ok_inv H. unfold bm_occ. destruct (seg_ref c s a n) as [[g sg]|]; [discriminate | reflexivity]. }
+  destruct (ty =? MSG_BM_MULTIPLE).
+  { destruct data as [|n [|sz bits]]; try discriminate.
+    destruct (board_by_addr c s a) as [[i bc]|] eqn:EB; [discriminate|].
+    destruct (mirror_overread c s a n sz bits); [discriminate|]. unfold bm_multiple in H.
+    destruct (_ <? _)%nat; [discriminate|]. ok_inv H. rewrite multiple_fold_no_board by auto. apply update_avail_id; auto. }
+  destruct (ty =? MSG_BM_CONFIDENCE).
+  { destruct data as [|v [|f [|n r]]]; try discriminate. ok_inv H. unfold bm_confidence.
+    destruct (board_by_addr c s a) as [[i bc]|]; [discriminate | reflexivity]. }
+  destruct (ty =? MSG_BM_ADDRESS).
+  { destruct data as [|n r]; try discriminate. ok_inv H. unfold bm_address. destruct (seg_ref c s a n) as [[g sg]|]; [discriminate | reflexivity]. }
+  destruct (ty =? MSG_BM_CURRENT).
+  { destruct data as [|n [|v r]]; try discriminate. ok_inv H. unfold bm_current. destruct (seg_ref c s a n) as [[g sg]|]; [discriminate | reflexivity]. }
+  destruct (ty =? MSG_BM_SPEED).
+  { destruct data as [|l [|h [|sl [|sh r]]]]; try discriminate. ok_inv H. unfold bm_speed.
+    destruct (train_ref c s l h) as [[[i tc] ts]|]; [discriminate | reflexivity]. }
+  destruct (ty =? MSG_BM_DYN_STATE).
+  { destruct data as [|m [|l [|h [|d [|v r]]]]]; try discriminate. ok_inv H. unfold bm_dyn_state.
+    destruct (train_ref c s l h) as [[[i tc] ts]|]; [discriminate | reflexivity]. }
+  destruct (ty =? MSG_BOOST_DIAGNOSTIC).
+  { ok_inv H. unfold boost_diagnostic. destruct (board_by_addr c s a) as [[i bc]|]; [|reflexivity].
+    destruct (is_booster bc); [discriminate | reflexivity]. }
+  destruct ((ty =? MSG_ACCESSORY_STATE) || (ty =? MSG_ACCESSORY_NOTIFY)).
+  { destruct data as [|n [|asp [|tot [|ex [|w r]]]]]; try discriminate. unfold accessory_state in H.
+    destruct (bacc_ref c s a n) as [[pt m]|]; [discriminate | ok_inv H; auto]. }
+  destruct (ty =? MSG_BOOST_STAT).
+  { destruct data as [|x r]; try discriminate. ok_inv H. unfold boost_state. destruct (board_by_addr c s a) as [[i bc]|]; [|reflexivity].
+    destruct (is_booster bc); [discriminate | reflexivity]. }
+  discriminate.
+Qed.
+
+(* a reverser report whose CV name matches no reverser of the sending board changes nothing either *)
+Lemma vendor_unknown_noop : forall c s a vl s', (forall cv, rev_ref c s a cv = None) -> vendor c s a vl = Ok s' -> s' = s.
+Proof.
+  unfold vendor; intros. destruct vl; [discriminate|]. destruct (_ <=? _)%nat; [discriminate|]. destruct (_ <? _)%nat; [discriminate|].
+  rewrite H in H0. inversion H0; auto.
+Qed.
+
+(* a value byte that equals a key code is a value: list 0,1,2,40 = current code 1, temperature 40, voltage untouched *)
+Lemma diag_value_is_not_key : diag_loop [0; 1; 2; 40] boost0 =
+  {| bo_ps := bo_ps boost0; bo_simple := bo_simple boost0; bo_pw := {| pw_known := true; pw_over := false; pw_cur := 1 |};
+     bo_vk := false; bo_v := 0; bo_tk := true; bo_t := 40 |}.
+Proof. vm_compute. reflexivity. Qed.
